@@ -128,7 +128,11 @@ StepSend(e) ==
          A3 == IF e.res = "ok" /\ live /\ e.r \notin x.dispAfter /\ v = "ok"
                  THEN {Alarm("Conformance", e, "phantom", "live send of a round that was not dispatched to this stream")}
                ELSE {}
-     IN /\ alarms' = alarms \cup A1 \cup A2 \cup A3
+         \* nothing below the requested start round
+         A0 == IF e.res = "ok" /\ x.from # 0 /\ e.r < x.from
+                 THEN {Alarm("BeforeStart", e, IF live THEN "live" ELSE "scan", "a round below the requested start round was handed to the stream")}
+                 ELSE {}
+     IN /\ alarms' = alarms \cup A0 \cup A1 \cup A2 \cup A3
         /\ ss' = IF e.res = "ok"
                    THEN [ss EXCEPT ![e.s].sent = Append(@, e.r),
                                    ![e.s].nscan = IF live THEN @ ELSE @ + 1]
